@@ -247,7 +247,9 @@ func c17Check(x *fleetExec, info *chmapInfo, src *skSnap, sig string) {
 					upper += s.w
 				}
 			}
-			sl := 1e-9*W + 1e-12
+			// slivers: a boundary of the interpolated mappings is only accurate to about 1e-12 relative,
+			// which is a fraction 1e-12/alpha of a bin's width (and hence of its weight)
+			sl := math.Max(1e-9, 1e-12/math.Min(info.src.alpha(), alpha2))*W + 1e-12
 			if cum < lower-sl || cum > upper+sl {
 				x.fail("transport-monotone", sig, fmt.Sprintf("%s side: weight of the result below %v is outside what the source holds below it", sideName, t),
 					fmt.Sprintf("between %v and %v", lower, upper), fmt.Sprint(cum))
